@@ -382,8 +382,18 @@ def releasing_source(produced, consumed, k, first_start=None):
     return None
 
 
+import multiprocessing as _mp
+
+SPLIT_STATUS = []                # status of the default execution of every configuration split so far (parent process)
+
+STUCK = _mp.Value("i", 0)        # executions that ran into the horizon / a deadlock so far (shared with the forked workers)
+STUCK_LIMIT = 400
+
+
 def _work(item):
     cfg, root, bound, cap = item
+    if STUCK.value >= STUCK_LIMIT:
+        return [], 0, True, set(), 0, {}
     install_line_points()
     found = {}
     stats = {"points": 0, "wires": set(), "statuses": {}}
@@ -393,6 +403,9 @@ def _work(item):
         stats["points"] += ex.S.steps
         stats["wires"].add(digest((ex.dev.log, [(c["rx_at_return"], repr(c["exc"])) for c in marks["calls"]])))
         stats["statuses"][ex.S.status] = stats["statuses"].get(ex.S.status, 0) + 1
+        if ex.S.status != "done":
+            with STUCK.get_lock():
+                STUCK.value += 1
         problems = check_execution(cfg, ex, marks, leaked)
         for sig, msg in problems:
             if sig not in found:
@@ -407,6 +420,9 @@ def _work(item):
 def split(cfg, bound, cap):
     install_line_points()
     a, ma, la = run_execution(cfg, [])
+    SPLIT_STATUS.append(a.S.status)
+    if a.S.status != "done":
+        return [(cfg, [], 0, None)], False        # the default execution does not terminate: _work reports it, nothing to refine
     b, mb, lb = run_execution(cfg, [])
     nondet = a.dev.log != b.dev.log or a.S.trace != b.S.trace
     items = [(cfg, [], 0, None)]
@@ -526,8 +542,16 @@ def run(tier, seed):
     res = Result("model_checking")
     plan_items = plan(tier)
     work, owner = [], []
+    stuck_defaults, skipped_plan = 0, 0
     for pi, (cfg, bound, cap) in enumerate(plan_items):
+        if stuck_defaults >= 6:
+            # the default executions of several configurations do not terminate (each costs a full horizon, and this phase runs
+            # in the parent process): the rest of the plan is left out - the configurations split so far carry the verdict
+            skipped_plan = len(plan_items) - pi
+            break
         items, nondet = split(cfg, bound, cap)
+        if SPLIT_STATUS and SPLIT_STATUS[-1] != "done":
+            stuck_defaults += 1
         if nondet:
             res.harness_errors.append(f"default schedule of {cfg} is not reproducible")
         work += items
@@ -561,7 +585,8 @@ def run(tier, seed):
                  "(2-3 statements incl. queries) x device behaviour per statement (ok, unsolicited status then ok, report then ok, report inside the ok line, error:/ALARM:/!! instead of ok, "
                  "Marlin Error then ok, connection loss) x greeting x latency regime (Q: first write only after the connect handshake has drained; L: arbitrary latency throughout) x default "
                  "policy (lazy/eager device); every schedule within `bound` deviations is run; states = distinct (wire log, return points), transitions = scheduling steps"),
-        "exhaustive": not capped,
+        "exhaustive": not capped and not skipped_plan,
+        "plan_items_skipped_after_non_terminating_defaults": skipped_plan,
         "exhaustive_note": "every schedule within the stated deviation bound of every listed configuration was run" if not capped else "execution caps hit, see caps_hit",
         "caps_hit": capped, "configurations": len(plan_items), "executions_by_bound": by_bound, "termination_statuses": statuses,
         "samples": sample_executions(plan_items),
